@@ -141,6 +141,7 @@ func parseKind(s string) (kind, bool) {
 type task struct {
 	tag, id      int // id < 0: scheduled through Executor.ExecuteAt
 	dueClock     int
+	after        time.Duration // > 0: given through ExecuteAfter with this delay
 	due          time.Time
 	kind         kind
 	handle       *timed.ScheduledTask
@@ -325,7 +326,14 @@ func (w *world) execTracked(t *task) string {
 	w.popMu.Lock()
 	n0 := len(w.qev)
 	w.popMu.Unlock()
-	p := hx.Safely(func() { h = w.te.ExecuteAt(t.id, cb, t.due) })
+	p := hx.Safely(func() {
+		if t.after > 0 {
+			t.due = time.Now().Add(t.after)
+			h = w.te.ExecuteAfter(t.id, cb, t.after)
+		} else {
+			h = w.te.ExecuteAt(t.id, cb, t.due)
+		}
+	})
 	if replacing {
 		// ExecuteAt cancels the old element and adds the new one in two critical sections.  A poller that held the
 		// old element is released by the cancellation; normally it polls after the new element is in (this goroutine
@@ -435,13 +443,13 @@ func (w *world) cancelID(id int, fromCallback bool) string {
 	return strconv.FormatBool(got)
 }
 
-func (w *world) exec(f []string) string {
+func (w *world) exec(f []string, now int) string {
 	switch f[0] {
 	case "nop":
 		return "done"
-	case "add", "exec":
+	case "add", "exec", "addafter", "execafter":
 		var t *task
-		if f[0] == "add" {
+		if f[0] == "add" || f[0] == "addafter" {
 			tag, _ := strconv.Atoi(f[1])
 			due, _ := strconv.Atoi(f[2])
 			k, ok := parseKind(f[3])
@@ -459,10 +467,16 @@ func (w *world) exec(f []string) string {
 			}
 			t = &task{tag: tag, id: id, dueClock: due, kind: k}
 		}
+		if strings.HasSuffix(f[0], "after") {
+			// ExecuteAfter: the number in the line is the delay; the never-early bound is the clock read before the call
+			// plus the delay (t.due is set right before the call)
+			t.after = time.Duration(t.dueClock) * w.unit
+			t.dueClock += now
+		}
 		t.due = w.at(t.dueClock)
 		w.mu.Lock()
 		w.tasks[t.tag] = t
-		if w.armTags[t.tag] {
+		if w.armTags[t.tag] && t.after == 0 {
 			// the hook is keyed by the scheduled time: an armed task gets an instant of its own (the generator gives
 			// armed tasks a due clock that no other task of the case has, so this does not reorder anything)
 			t.due = t.due.Add(time.Duration(1+armSeq.Add(1)%900000) * time.Nanosecond)
@@ -474,7 +488,15 @@ func (w *world) exec(f []string) string {
 		}
 		sizeBefore := w.te.Size()
 		var h *timed.ScheduledTask
-		if p := hx.Safely(func() { h = w.te.Executor.ExecuteAt(w.callback(t), t.due) }); p != "" {
+		cb := w.callback(t)
+		if p := hx.Safely(func() {
+			if t.after > 0 {
+				t.due = time.Now().Add(t.after)
+				h = w.te.Executor.ExecuteAfter(cb, t.after)
+			} else {
+				h = w.te.Executor.ExecuteAt(cb, t.due)
+			}
+		}); p != "" {
 			return "panic"
 		}
 		if h == nil {
@@ -640,6 +662,9 @@ func runOnce(lines []string, unit time.Duration) (res caseResult) {
 			w.w, _ = strconv.Atoi(f[1])
 			w.m, _ = strconv.Atoi(f[2])
 			w.te = timed.NewTaskExecutor[int](w.w, timed.WithMaxQueueSize(w.m))
+			if n := w.te.WorkerCount(); n != w.w {
+				w.fail("harness", fmt.Sprintf("WorkerCount() = %d for an executor created with %d workers", n, w.w), map[string]string{"oracle": "worker-count"})
+			}
 			w.qptr = reflect.ValueOf(w.te.Executor).Elem().FieldByName("queue").Pointer()
 			worlds.Store(w.qptr, w)
 			time.Sleep(unit) // workers park
@@ -672,7 +697,7 @@ func runOnce(lines []string, unit time.Duration) (res caseResult) {
 		if late := time.Since(target); late > w.maxLate {
 			w.maxLate = late
 		}
-		ans := w.exec(f[1:])
+		ans := w.exec(f[1:], now)
 		w.mu.Lock()
 		w.marks = append(w.marks, time.Now())
 		w.mu.Unlock()
@@ -743,6 +768,37 @@ func (w *world) finish(T int) string {
 			}
 		}
 	}
+	// every poll follows something closely: an insertion (a waiting poller was woken), a callback returning or an
+	// operation of the harness (a poller became free), the start of a callback
+	w.popMu.Lock()
+	for _, e := range w.qev {
+		if !e.pop || !e.at.After(w.base) {
+			continue
+		}
+		caused := false
+		near := func(c time.Time) {
+			if d := e.at.Sub(c); d >= -time.Millisecond && d <= w.unit/4 {
+				caused = true
+			}
+		}
+		for _, a := range w.qev {
+			if !a.pop {
+				near(a.at)
+			}
+		}
+		for _, m := range w.marks {
+			near(m)
+		}
+		for _, t := range runs {
+			for _, at := range t.runs {
+				near(at)
+			}
+		}
+		if !caused {
+			w.glitch = true
+		}
+	}
+	w.popMu.Unlock()
 	// ... and a delay of about a whole unit lands on the grid again: once an element has been polled and its time has
 	// come, its callback must start within a quarter unit
 	w.popMu.Lock()
@@ -929,12 +985,14 @@ func genCase(rng *hx.Rng) []string {
 
 		return d
 	}
-	oddDue := func(base, lo, hi int) int { return fix(base+rng.Range(lo, hi), false) }
 	// genTask picks the callback kind and the due clock.  A re-scheduling task gets a due clock of its own, so
 	// that no other timer fires in the same instant on another worker (the order of two concurrent Adds would
 	// not be determined).
-	genTask := func(tracked bool) (int, string) {
+	// own: the task needs a due clock that no other task of the case has (ExecuteAfter: its due time is the call time
+	// plus the delay, i.e. a little after the grid instant - never the same instant as an ExecuteAt task)
+	genTask := func(tracked, own bool) (int, string) {
 		x := rng.Intn(100)
+		oddDue := func(base, lo, hi int) int { return fix(base+rng.Range(lo, hi), own) }
 		switch {
 		case x < 55 || (!tracked && x < 80):
 			return oddDue(clock, -3, 9), "plain"
@@ -963,13 +1021,24 @@ func genCase(rng *hx.Rng) []string {
 		case x < 45:
 			id := rng.Range(1, 3)
 			mytag := tag
-			due, k := genTask(true)
-			lines = append(lines, fmt.Sprintf("%d exec %d %d %d %s", clock, id, mytag, due, k))
+			after := rng.Chance(1, 4)
+			due, k := genTask(true, after)
+			if due > clock && after {
+				// TaskExecutor.ExecuteAfter with the delay that gives the same due clock
+				lines = append(lines, fmt.Sprintf("%d execafter %d %d %d %s", clock, id, mytag, due-clock, k))
+			} else {
+				lines = append(lines, fmt.Sprintf("%d exec %d %d %d %s", clock, id, mytag, due, k))
+			}
 			tag++
 		case x < 55:
 			mytag := tag
-			due, k := genTask(false)
-			lines = append(lines, fmt.Sprintf("%d add %d %d %s", clock, mytag, due, k))
+			after := rng.Chance(1, 4)
+			due, k := genTask(false, after)
+			if due > clock && after {
+				lines = append(lines, fmt.Sprintf("%d addafter %d %d %s", clock, mytag, due-clock, k))
+			} else {
+				lines = append(lines, fmt.Sprintf("%d add %d %d %s", clock, mytag, due, k))
+			}
 			rawTags = append(rawTags, mytag)
 			tag++
 		case x < 75:
@@ -1054,6 +1123,10 @@ func corpus() [][]string {
 		{"new 1 0", "0 exec 1 10 11 plain", "2 exec 2 11 7 plain", "4 exec 3 12 5 plain", "6 cancel 2", "8 exec 2 13 9 plain", "end 14"},
 		{"new 2 0", "0 add 10 9 plain", "2 add 11 13 plain", "4 add 12 5 plain", "6 add 13 3 plain", "8 ecancel 10", "end 16"},
 	}
+	c = append(c,
+		// ExecuteAfter: the due time is the call time plus the delay
+		[]string{"new 1 0", "0 execafter 1 10 5 plain", "2 addafter 11 9 plain", "4 execafter 1 12 3 plain", "end 14"},
+		[]string{"new 2 1", "0 addafter 10 7 block", "2 addafter 11 3 plain", "4 execafter 2 12 9 plain", "6 addafter 13 1 plain", "10 release 10", "end 16"})
 	for i := 0; i < 12; i++ {
 		c = append(c, []string{"new 1 0", "0 arm 10", "2 add 10 1 plain", "4 ecancel 10", "6 release 10", "end 10"})
 	}
@@ -1705,6 +1778,355 @@ func runCancelRace(r *rec, sub uint64, workers, reps int) {
 	r.Nontrivial(fmt.Sprintf("cancelrace-%d", workers))
 }
 
+// ---------------------------------------------------------------------------------------------------------
+// direct use of timed.Queue
+
+// runQSeqLine: one goroutine, no concurrency.  `qseq <maxSize> a<rank>|c<i> ...`: Adds with due ranks (equal ranks are
+// equal instants) and Cancels of earlier elements on a Queue with WithMaxSize; then Size(), then Poll(false) until it
+// returns nil.  The Lean driver computes size and delivery order with the model's add / cancelElem / Heap.pop.
+func runQSeqLine(r *rec, line string) {
+	f := strings.Fields(line)
+	if len(f) < 2 || f[0] != "qseq" {
+		r.Line(line, "bad-op")
+
+		return
+	}
+	m, _ := strconv.Atoi(f[1])
+	fail := func(oracle, detail, o string) {
+		r.Fail(oracle, "qseq: "+detail+"; ops="+line, map[string]string{"oracle": o, "mode": "qseq"})
+	}
+	q := timed.NewQueue[*int](timed.WithMaxSize[*int](m))
+	const step = 1500 * time.Microsecond
+	base := time.Now().Add(8 * time.Millisecond)
+	var hs []*timed.QueueElement[*int]
+	var dues []time.Time
+	cancelled := map[int]bool{}
+	if q.IsShutdown() {
+		fail("harness", "IsShutdown() is true for a new queue", "is-shutdown")
+	}
+	if v := q.Poll(false); v != nil {
+		fail("never-early", "Poll(false) on an empty queue returned a value", "poll-empty")
+	}
+	for _, tok := range f[2:] {
+		n, _ := strconv.Atoi(tok[1:])
+		switch tok[0] {
+		case 'a':
+			v := len(hs)
+			due := base.Add(time.Duration(n) * step)
+			h := q.Add(&v, due)
+			if h == nil {
+				fail("eventually-delivered", "Add returned nil before Shutdown", "refused")
+			}
+			hs = append(hs, h)
+			dues = append(dues, due)
+		case 'c':
+			if n < len(hs) && hs[n] != nil {
+				hs[n].Cancel()
+				cancelled[n] = true
+			}
+		}
+	}
+	size := q.Size()
+	var order []string
+	seen := map[int]bool{}
+	for {
+		var v *int
+		done := make(chan struct{})
+		go func() { v = q.Poll(false); close(done) }()
+		select {
+		case <-done:
+		case <-time.After(5 * time.Second):
+			fail("eventually-delivered", "Poll(false) on a non-empty queue did not return within 5s", "poll-hang")
+			r.Line(line, "hang")
+
+			return
+		}
+		now := time.Now()
+		if v == nil {
+			break
+		}
+		if now.Before(dues[*v]) {
+			fail("never-early", fmt.Sprintf("Poll(false) returned element %d %v before its time", *v, dues[*v].Sub(now)), "early")
+		}
+		if seen[*v] {
+			fail("at-most-once", fmt.Sprintf("element %d delivered twice", *v), "double-run")
+		}
+		if cancelled[*v] {
+			fail("cancel-honoured", fmt.Sprintf("element %d delivered after its Cancel() returned", *v), "ran-after-element-cancel")
+		}
+		seen[*v] = true
+		order = append(order, strconv.Itoa(*v))
+	}
+	if m == 0 {
+		for i := range hs {
+			if !seen[i] && !cancelled[i] {
+				fail("eventually-delivered", fmt.Sprintf("element %d neither cancelled nor subject to a size bound was never delivered", i), "missing-delivery")
+			}
+		}
+	} else if len(seen) > m {
+		fail("harness", fmt.Sprintf("%d elements delivered from a queue with max size %d that was filled before anything was polled", len(seen), m), "size-bound")
+	}
+	q.Shutdown()
+	if !q.IsShutdown() {
+		fail("harness", "IsShutdown() is false after Shutdown", "is-shutdown")
+	}
+	v := 0
+	if h := q.Add(&v, time.Now()); h != nil {
+		fail("harness", "Add after Shutdown returned an element", "add-after-shutdown")
+	}
+	done := make(chan struct{})
+	go func() { q.Poll(true); close(done) }()
+	select {
+	case <-done:
+	case <-time.After(2 * time.Second):
+		fail("shutdown-returns", "Poll(true) on an empty queue after Shutdown did not return", "poll-hang")
+	}
+	r.Line(line, fmt.Sprintf("size=%d order=[%s]", size, strings.Join(order, " ")))
+	r.Count("qseq")
+	r.Count(fmt.Sprintf("qseq-maxsize:%d", m))
+	if len(order) >= 2 {
+		h := sha256.Sum256([]byte(line))
+		r.Nontrivial("qseq" + string(h[:8]))
+	}
+}
+
+func genQSeq(rng *hx.Rng) string {
+	m := hx.Pick(rng, []int{0, 0, 1, 2, 3, 4})
+	n := rng.Range(2, 9)
+	toks := []string{"qseq", strconv.Itoa(m)}
+	adds := 0
+	for i := 0; i < n; i++ {
+		if adds > 0 && rng.Chance(1, 5) {
+			toks = append(toks, fmt.Sprintf("c%d", rng.Intn(adds)))
+		} else {
+			toks = append(toks, fmt.Sprintf("a%d", rng.Intn(6))) // few ranks: ties are frequent
+			adds++
+		}
+	}
+
+	return strings.Join(toks, " ")
+}
+
+func runQSeqs(r *rec, sub uint64, count int) {
+	rng := hx.NewRng(sub)
+	lines := []string{"qseq 2 a5 a3 a3 a1 c1 a4", "qseq 0 a2 a2 a1 c0", "qseq 1 a1 a1 a0", "qseq 3 a0 a0 a0 a0 a0", "qseq 0 a4 a1 c0 c0 a1"}
+	for i := 0; i < count; i++ {
+		lines = append(lines, genQSeq(rng))
+	}
+	recs := make([]*rec, len(lines))
+	sem := make(chan struct{}, 32)
+	var wg sync.WaitGroup
+	for i := range lines {
+		wg.Add(1)
+		sem <- struct{}{}
+		go func(i int) {
+			defer wg.Done()
+			defer func() { <-sem }()
+			recs[i] = newRec()
+			runQSeqLine(recs[i], lines[i])
+		}(i)
+	}
+	wg.Wait()
+	for _, x := range recs {
+		r.Lines = append(r.Lines, x.Lines...)
+		r.Fails = append(r.Fails, x.Fails...)
+		for k, v := range x.Counts {
+			r.Counts[k] += v
+		}
+		r.Nontriv = append(r.Nontriv, x.Nontriv...)
+	}
+}
+
+type qItem struct {
+	x         int
+	due       time.Time
+	h         *timed.QueueElement[*qItem]
+	delivered atomic.Int32
+	at        atomic.Int64 // us since base
+	cancelAt  atomic.Int64 // us since base when Cancel() had returned (0: not cancelled)
+}
+
+// runQSess: a concurrent session on a bare Queue: producers Add values with due times on a grid (equal instants
+// across producers), consumers loop over Poll(true) and Poll(false), some elements are cancelled, Shutdown with the
+// given flags comes in the middle (flags "e": at the end).  Judged by the Go oracle and, as a trace, by okLog.
+func runQSess(r *rec, sub uint64, producers, consumers, m int, fl string, reps int) {
+	rng := hx.NewRng(sub)
+	op := fmt.Sprintf("qsess %d %d %d %s %d", producers, consumers, m, fl, reps)
+	var fails []finding
+	var fmu sync.Mutex
+	failf := func(oracle, detail, o string) {
+		fmu.Lock()
+		fails = append(fails, finding{oracle, "qsess: " + detail + " (" + op + ")", map[string]string{"oracle": o, "mode": "qsess"}, true})
+		fmu.Unlock()
+	}
+	var evs []string
+	x := 0
+	for rep := 0; rep < reps; rep++ {
+		q := timed.NewQueue[*qItem](timed.WithMaxSize[*qItem](m))
+		base := time.Now()
+		us := func(t time.Time) int64 { return max(t.Sub(base).Microseconds(), 0) }
+		const perProducer = 12
+		const grid = 700 * time.Microsecond
+		var mu sync.Mutex
+		var loc []string
+		logf := func(format string, a ...any) {
+			mu.Lock()
+			loc = append(loc, fmt.Sprintf(format, a...))
+			mu.Unlock()
+		}
+		var items []*qItem
+		var ignoreAt atomic.Int64 // us of the Shutdown(ignore) call (0: none)
+		var sdAt atomic.Int64
+		deliver := func(it *qItem, how string) {
+			now := time.Now()
+			n := it.delivered.Add(1)
+			it.at.Store(us(now) + 1)
+			logf("deliver %d %d", it.x, us(now))
+			if n > 1 {
+				failf("at-most-once", fmt.Sprintf("element delivered %d times", n), "double-run")
+			}
+			if now.Before(it.due) && !(ignoreAt.Load() > 0 && us(now)+1 >= ignoreAt.Load()) {
+				failf("never-early", fmt.Sprintf("%s returned an element %v before its time", how, it.due.Sub(now)), "early")
+			}
+			if c := it.cancelAt.Load(); c > 0 && c+1000 < us(it.due) && !(ignoreAt.Load() > 0) {
+				failf("cancel-honoured", "an element whose Cancel() returned more than 1ms before its time was delivered", "ran-after-element-cancel")
+			}
+		}
+		var cwg sync.WaitGroup
+		stop := make(chan struct{})
+		for c := 0; c < consumers; c++ {
+			cwg.Add(1)
+			go func(blocking bool) {
+				defer cwg.Done()
+				for {
+					if blocking {
+						it := q.Poll(true)
+						if it == nil {
+							return // shut down and empty
+						}
+						deliver(it, "Poll(true)")
+
+						continue
+					}
+					if it := q.Poll(false); it != nil {
+						deliver(it, "Poll(false)")
+
+						continue
+					}
+					select {
+					case <-stop:
+						return
+					case <-time.After(150 * time.Microsecond):
+					}
+				}
+			}(c%2 == 0)
+		}
+		var pwg sync.WaitGroup
+		var imu sync.Mutex
+		seeds := make([]uint64, producers)
+		for i := range seeds {
+			seeds[i] = rng.U64()
+		}
+		imu.Lock()
+		for p := 0; p < producers; p++ {
+			for k := 0; k < perProducer; k++ {
+				x++
+				items = append(items, &qItem{x: x})
+			}
+		}
+		first := len(items) - producers*perProducer
+		imu.Unlock()
+		for p := 0; p < producers; p++ {
+			pwg.Add(1)
+			go func(p int, lr *hx.Rng) {
+				defer pwg.Done()
+				for k := 0; k < perProducer; k++ {
+					it := items[first+p*perProducer+k]
+					it.due = base.Add(time.Duration(2+lr.Intn(14)) * grid)
+					logf("sched %d - %d", it.x, us(it.due))
+					it.h = q.Add(it, it.due)
+					if lr.Chance(1, 6) && it.h != nil {
+						time.Sleep(time.Duration(lr.Intn(300)) * time.Microsecond)
+						it.h.Cancel()
+						ca := time.Now()
+						it.cancelAt.Store(us(ca) + 1)
+						if ca.Add(time.Millisecond).Before(it.due) {
+							logf("cancelled %d", it.x)
+						}
+					}
+					time.Sleep(time.Duration(lr.Intn(200)) * time.Microsecond)
+				}
+			}(p, hx.NewRng(seeds[p]))
+		}
+		var flags []timed.ShutdownFlag
+		if strings.Contains(fl, "c") {
+			flags = append(flags, timed.CancelPendingElements)
+		}
+		if strings.Contains(fl, "i") {
+			flags = append(flags, timed.IgnorePendingTimeouts)
+		}
+		midway := !strings.Contains(fl, "e")
+		if midway {
+			time.Sleep(time.Duration(3+rng.Intn(5)) * grid)
+			if strings.Contains(fl, "i") {
+				ignoreAt.Store(us(time.Now()) + 1)
+			}
+			sdAt.Store(us(time.Now()) + 1)
+			logf("shutdown %d %d", b2i(strings.Contains(fl, "c")), b2i(strings.Contains(fl, "i")))
+			q.Shutdown(flags...)
+		}
+		pwg.Wait()
+		// everything accepted is due within 16 grid steps
+		deadline := time.Now().Add(2 * time.Second)
+		pending := func() (n int) {
+			for _, it := range items[first:] {
+				if it.h != nil && it.delivered.Load() == 0 && it.cancelAt.Load() == 0 {
+					n++
+				}
+			}
+
+			return
+		}
+		for !strings.Contains(fl, "c") && m == 0 && pending() > 0 && time.Now().Before(deadline) {
+			time.Sleep(time.Millisecond)
+		}
+		if !strings.Contains(fl, "c") && m == 0 {
+			if n := pending(); n > 0 {
+				failf("eventually-delivered", fmt.Sprintf("%d element(s) whose Add returned non-nil, not cancelled, no size bound, no CancelPendingElements, were never delivered (shutdown flags %q)", n, fl), "missing-delivery")
+			}
+		}
+		if !midway {
+			q.Shutdown(flags...)
+		}
+		close(stop)
+		cdone := make(chan struct{})
+		go func() { cwg.Wait(); close(cdone) }()
+		select {
+		case <-cdone:
+		case <-time.After(3 * time.Second):
+			failf("shutdown-returns", "a consumer did not return from Poll after Shutdown", "poll-hang")
+		}
+		mu.Lock()
+		evs = append(evs, loc...)
+		mu.Unlock()
+	}
+	r.Line(op, "done")
+	for _, e := range evs {
+		r.Line("ev "+e, "ok")
+	}
+	r.Line("check", "accept")
+	seen := map[string]bool{}
+	for _, f := range fails {
+		if !seen[f.oracle+f.sig["oracle"]] {
+			seen[f.oracle+f.sig["oracle"]] = true
+			r.Fail(f.oracle, f.detail, f.sig)
+		}
+	}
+	r.CountN("stress-events", len(evs))
+	r.Count("qsess:" + fl)
+	r.Nontrivial(fmt.Sprintf("qsess-%d-%d-%d-%s", producers, consumers, m, fl))
+}
+
 func b2i(b bool) int {
 	if b {
 		return 1
@@ -1792,6 +2214,12 @@ func execDescriptor(j job, unit time.Duration) *rec {
 		runSdRace(r, j.Sub, at(1), at(2), at(3))
 	case len(f) == 3 && f[0] == "cancelrace":
 		runCancelRace(r, j.Sub, at(1), at(2))
+	case len(f) == 2 && f[0] == "qseqs":
+		runQSeqs(r, j.Sub, at(1))
+	case len(f) >= 2 && f[0] == "qseq":
+		runQSeqLine(r, j.Desc)
+	case len(f) == 6 && f[0] == "qsess":
+		runQSess(r, j.Sub, at(1), at(2), at(3), f[4], at(5))
 	default:
 		r.Line(j.Desc, "bad-op")
 	}
@@ -1844,7 +2272,7 @@ func main() {
 		j := job{Sub: r.Seed, Desc: "seq " + strings.Join(keep, " | ")}
 		if len(keep) > 0 {
 			switch strings.Fields(keep[0])[0] {
-			case "stress", "burst", "addrace", "addburst", "sdrace", "cancelrace":
+			case "stress", "burst", "addrace", "addburst", "sdrace", "cancelrace", "qseq", "qsess":
 				j.Desc = keep[0]
 			}
 		}
@@ -1899,6 +2327,13 @@ func main() {
 			reps = v
 		}
 		stress("cancelrace %d %d", wk, reps)
+	}
+	stress("qseqs %d", 150*r.Scale)
+	for _, cfg := range []struct {
+		p, c, m int
+		fl      string
+	}{{3, 4, 0, "e"}, {2, 2, 0, "-"}, {3, 3, 0, "i"}, {3, 4, 0, "c"}, {2, 3, 0, "ci"}, {3, 2, 3, "e"}, {1, 1, 0, "e"}} {
+		stress("qsess %d %d %d %s %d", cfg.p, cfg.c, cfg.m, cfg.fl, 3*r.Scale)
 	}
 	for _, fl := range []string{"-", "c", "i", "ci"} {
 		for _, wk := range []int{2, 3} {
